@@ -182,6 +182,7 @@ def run_one(ctx, facts, cfgname):
                       "(or documented SIG*) name of each variant, and SerdeTag / SerdeEvent serialise their fields under the field names")
     ctx.rule("R16.6", "event metadata is serialised through a BTreeMap (sorted keys); Tag and Event (de)serialise through their "
                       "Serde* mirror types via From/Into")
+    ctx.also("R16.6", "the CLI's JSON events file holds one complete serialisation per line, a serialisation failure ends the emission (shared with R17.8)")
 
     def fn1(rule, name, regex):
         return ctx.anchor_one(rule, name + sfx, facts.fns_matching(regex))
